@@ -610,7 +610,7 @@ func (c *Ctx) ruleGraphsPersist() {
 
 func runC03(c *Ctx) {
 	p, r := c.P, c.R
-	r.Explanation = "Decides the protocol obligations whose conjunction is the termination / no-leak argument for Send, each a necessary condition: every feasible send on a chan Status is an arm of a blocking select that also receives from the function's ctx.Done(); the collector's only blocking operation is one select over {ctx.Done(), status channel}, it leaves its loop on either ctx.Done() or channel closed, and nothing blocks between that and its return; the traversal's first effect is defer wg.Done(), every start of it is immediately preceded by wg.Add(1) on the same wait group, the channel is closed at exactly one site, after wg.Wait(), after the range; the inventory of blocking instructions reachable from Send inside package eventlogger equals these whitelisted protocol sites; channel and wait group are created per call and stay private to it. Latency bounds and scheduler fairness are not decided. C03.private make-size: no allocation of the package is sized by a value that can be negative."
+	r.Explanation = "Decides the protocol obligations whose conjunction is the termination / no-leak argument for Send, each a necessary condition: every feasible send on a chan Status is an arm of a blocking select that also receives from the function's ctx.Done(); the collector's only blocking operation is one select over {ctx.Done(), status channel}, it leaves its loop on either ctx.Done() or channel closed, and nothing blocks between that and its return; the traversal's first effect is defer wg.Done(), every start of it is immediately preceded by wg.Add(1) on the same wait group, the channel is closed at exactly one site, after wg.Wait(), after the range; the inventory of blocking instructions reachable from Send inside package eventlogger equals these whitelisted protocol sites; channel and wait group are created per call and stay private to it. Latency bounds and scheduler fairness are not decided. C03.private make-size: no allocation of the package is sized by a value that can be negative. C03.nocopy: no repository function takes, returns or dereference-copies by value a type that contains a sync primitive."
 	r.NotDecided = []string{"latency after cancellation as a number", "scheduler fairness", "panics inside user nodes"}
 	a := c.protoAnchors("C03.anchor")
 	if a == nil {
@@ -639,6 +639,7 @@ func runC03(c *Ctx) {
 	// RemoveNode that returns with the write lock held makes every later Send block for ever,
 	// cancelled context or not
 	c.pairingRule("C03.pairing", func(fn *ssa.Function) bool { return PkgPathOf(fn) == PkgRoot }, false)
+	c.ruleNoLockCopy("C03.nocopy")
 	_ = p
 }
 
